@@ -14,7 +14,9 @@ Pointwise problems (``formulation_cases()``)
      "dx": {x name: [floats]},            # second design point = x + dx
      "start": {output name: [floats]},    # start / current values of every discipline output
      "ds": [{"name": n, "lo": [..] | None, "hi": [..] | None}, ...],   # the user's design space, user's order:
-                                                                       # every design input and every coupling
+                                                                       # every design input and every coupling;
+                                                                       # optional "type": "integer" on ALL the design
+                                                                       # inputs (integer values and bounds)
      "mdf_keeps": [bool, ...],            # per coupling (sorted): is it in the space handed to MDF / DisciplinaryOpt
      "objective": output name, "maximize": bool,
      "constraints": [{"outputs": [names of ONE discipline], "type": "eq"|"ineq", "value": a, "positive": bool,
@@ -58,6 +60,7 @@ __all__ = [
     "QuadraticObjectiveTwin",
     "quadratic_objective_discipline",
     "reduced_quadratic",
+    "weak_couplings",
     "solve_convex_qp",
     "MDA_CHOICES",
 ]
@@ -151,6 +154,20 @@ def used_design_inputs(model: CoupledSystem) -> list[str]:
     return [n for n in model.x_names if n in read]
 
 
+def weak_couplings(model: CoupledSystem) -> list[str]:
+    """Couplings that are not read inside the strongly connected component (or self-coupled discipline) producing them."""
+    comp = {}
+    for k, c in enumerate(model.sccs()):
+        for i in c:
+            comp[i] = k
+    weak = []
+    for n in model.couplings():
+        i = model.producer[n]
+        if not any(comp[j] == comp[i] and n in model.inputs_of[j] for j in range(len(model.inputs_of))):
+            weak.append(n)
+    return weak
+
+
 def reads_a_coupling(model: CoupledSystem, output: str) -> bool:
     """Whether ``output`` directly reads a coupling (then it depends on y, hence on the whole coupled solve)."""
     i = model.producer[output]
@@ -185,12 +202,12 @@ def _with_second_couplings(draw, payload: dict):
     coupling blocks is recomputed from the payload: the system stays a contraction with factor q.)
     """
     n = len(payload["discs"])
-    if n < 2 or not any(len(d["outputs"]) > 1 for d in payload["discs"]) or draw(st.integers(0, 2)) == 0:
+    if n < 2 or not any(len(d["outputs"]) > 1 for d in payload["discs"]) or draw(st.integers(0, 4)) == 0:
         return payload
     discs = [{**d, "outputs": [dict(o) for o in d["outputs"]]} for d in payload["discs"]]
     for i, d in enumerate(discs):
         for g in d["outputs"][1:]:
-            if draw(st.booleans()):
+            if draw(st.integers(0, 3)) > 0:
                 j = draw(st.sampled_from([k for k in range(n) if k != i]))
                 target = discs[j]["outputs"][0]
                 block = [[draw(st.integers(-3, 3)) for _ in range(g["size"])] for _ in range(target["size"])]
@@ -210,8 +227,14 @@ def formulation_cases(draw):
     model = CoupledSystem(system)
     couplings = model.couplings()
     info_all_strong = len(model.sccs()) == 1 and len(system["discs"]) > 1
-    x = {v["name"]: [draw(HALF) for _ in range(v["size"])] for v in system["x"]}
-    dx = {v["name"]: [draw(st.sampled_from([-1.0, -0.5, 0.0, 0.5, 1.0])) for _ in range(v["size"])] for v in system["x"]}
+    # every design variable integer-typed (the MDF design vector then has an integer dtype) or all of them float
+    integer_x = draw(st.integers(0, 3)) == 0
+    if integer_x:
+        x = {v["name"]: [float(draw(st.integers(-2, 2))) for _ in range(v["size"])] for v in system["x"]}
+        dx = {v["name"]: [draw(st.sampled_from([-1.0, 0.0, 1.0, 2.0])) for _ in range(v["size"])] for v in system["x"]}
+    else:
+        x = {v["name"]: [draw(HALF) for _ in range(v["size"])] for v in system["x"]}
+        dx = {v["name"]: [draw(st.sampled_from([-1.0, -0.5, 0.0, 0.5, 1.0])) for _ in range(v["size"])] for v in system["x"]}
     start = {n: [draw(HALF) for _ in range(model.sizes[n])] for n in model.out_names}
     normalize = draw(st.booleans())
     # the user's design space: design inputs and couplings in a drawn order
@@ -225,12 +248,18 @@ def formulation_cases(draw):
             else:
                 lo = [float(draw(st.integers(-90, -60))) for _ in range(size)]
                 hi = [float(draw(st.integers(60, 90))) for _ in range(size)]
+        elif integer_x:  # integer variables with integer bounds
+            lo = [min(x[n][k], x[n][k] + dx[n][k]) - draw(st.sampled_from([0.0, 1.0, 2.0])) for k in range(size)]
+            hi = [max(x[n][k], x[n][k] + dx[n][k]) + draw(st.sampled_from([1.0, 2.0])) for k in range(size)]
         elif draw(st.integers(0, 5)) == 0:
             lo = hi = None
         else:
             lo = [min(x[n][k], x[n][k] + dx[n][k]) - draw(st.sampled_from([0.0, 0.5, 2.0])) for k in range(size)]
             hi = [max(x[n][k], x[n][k] + dx[n][k]) + draw(st.sampled_from([0.5, 2.0])) for k in range(size)]
-        ds.append({"name": n, "lo": lo, "hi": hi})
+        entry = {"name": n, "lo": lo, "hi": hi}
+        if integer_x and n not in model.producer:
+            entry["type"] = "integer"
+        ds.append(entry)
     # objective and constraints among the discipline outputs, biased towards functions of the couplings
     on_y = [n for n in model.out_names if reads_a_coupling(model, n)]
     pool = on_y if on_y and draw(st.integers(0, 3)) > 0 else model.out_names
@@ -252,6 +281,12 @@ def formulation_cases(draw):
     mda = dict(draw(st.sampled_from(MDA_CHOICES)))
     if mda["main"] == "MDANewtonRaphson" and not info_all_strong:
         mda = {"main": "MDAChain", "inner": "MDANewtonRaphson"}  # the documented way for weakly coupled systems
+    mdf_keeps = draw(st.sampled_from(["all", "all", "none", "mixed"]).flatmap(
+        lambda mode: st.just([mode == "all"] * len(couplings)) if mode != "mixed" else st.lists(st.booleans(), min_size=len(couplings), max_size=len(couplings))))
+    weak = weak_couplings(model)
+    if any(k and n in weak for n, k in zip(couplings, mdf_keeps)) and draw(st.integers(0, 2)) == 0:
+        # MDAJacobi is the main MDA whose input grammar also holds the weak couplings: MDF must remove them itself
+        mda = {"main": "MDAJacobi", "inner": None}
     delta = {n: [draw(st.sampled_from([-1.0, -0.5, 0.0, 0.25, 0.5, 2.0])) for _ in range(model.sizes[n])] for n in couplings}
     if couplings and not any(v for vals in delta.values() for v in vals):
         delta[couplings[0]][0] = 0.5
@@ -259,8 +294,7 @@ def formulation_cases(draw):
         "system": system,
         "grammar": draw(st.sampled_from(["SimpleGrammar", "SimpleGrammar", "SimpleGrammar", "JSONGrammar"])),
         "x": x, "dx": dx, "start": start, "ds": ds,
-        "mdf_keeps": draw(st.sampled_from(["all", "all", "none", "mixed"]).flatmap(
-            lambda mode: st.just([mode == "all"] * len(couplings)) if mode != "mixed" else st.lists(st.booleans(), min_size=len(couplings), max_size=len(couplings)))),
+        "mdf_keeps": mdf_keeps,
         "objective": objective, "maximize": draw(st.integers(0, 3)) == 0,
         "constraints": constraints, "normalize": normalize, "mda": mda, "delta": delta,
         "perturbed_first": draw(st.booleans()), "jac_first": draw(st.booleans()),
@@ -557,4 +591,5 @@ def convex_problems(draw):
         "normalize": draw(st.booleans()),
         "mda": dict(draw(st.sampled_from([c for c in MDA_CHOICES if c["main"] == "MDAChain"]))),
         "ds_order": draw(st.permutations(list(range(len(system["x"]) + len(couplings))))),
+        "normalize_design_space": draw(st.sampled_from([False, False, True])),
     }
